@@ -128,7 +128,10 @@ Inductive op :=
 | NewInstance (c : Z)                 (* cls() *)
 | Step (i : Z) (args : list Z)        (* instance.step( *args) (some possibly by keyword) *)
 | RunModel (i : Z) (fuel : nat)       (* instance.run_model() *)
-| SetRunning (i : Z) (b : bool).      (* instance.running = b *)
+| SetRunning (i : Z) (b : bool)       (* instance.running = b *)
+| Clone (i : Z).                      (* pickle.loads(pickle.dumps(instance)) (any protocol; also reached through a pickled
+                                         agent or AgentSet of the model) or copy.deepcopy(instance): a NEW instance of the same
+                                         class with the same counter and flag, whose step is again the counting wrapper *)
 
 Definition enc_status (r : status) : list Z :=
   match r with Ok => [0] | ErrType => [-1; 2] | ErrBoom => [-1; 3] | OutOfFuel => [-4] end.
@@ -187,6 +190,13 @@ Definition step_op (w : world) (o : op) : world * list Z :=
       match class_of w i with
       | None => (w, OBS_NOOP)
       | Some (x, h) => (set_inst w i {| steps := steps (i_st x); running := b |} (i_cls x), [0])
+      end
+  | Clone i =>
+      match class_of w i with
+      | None => (w, OBS_NOOP)
+      | Some (x, h) =>
+          ({| w_classes := w_classes w; w_bases := w_bases w;
+              w_insts := w_insts w ++ [{| i_cls := i_cls x; i_st := i_st x |}] |}, [zlen (w_insts w)])
       end
   end.
 
